@@ -19,6 +19,11 @@ fn run() -> libwild::error::Result {
     #[cfg(feature = "dhat")]
     let _profiler = dhat::Profiler::new_heap();
 
+    #[cfg(feature = "verif")]
+    if std::env::var_os("WILD_VERIF_SERVE").is_some() {
+        libwild::verif::serve();
+    }
+
     libwild::init_timing()?;
 
     let mut args = libwild::Args::new(std::env::args)?;
